@@ -121,4 +121,11 @@ CLAIMS['C19'] = {
           'else open, and the files then hold exactly the completed writes; bamSplitByTag gives each tag value exactly its reads for every max_handles >= 1.',
   'note': 'PARTIAL: the file system and OS are modelled (path -> content after close; failed open has no effect); buffering, gzip framing, write/close failures and real descriptor limits are outside '
           'the model (gzip validity and RLIMIT_NOFILE exhaustion only sampled in K). No translator tie (K only, with full-trace comparison).'}
+CLAIMS['C13'] = {
+  'technique': 'Coq proof (vote table = sum of per-fragment contributions; argmax+mask = unique strict maximum; fold invariant for pick_best; Permutation/duplication invariance) about an executable transcription of Molecule.get_consensus / Fragment.get_consensus / pick_best_base_call + correspondence on in-memory pysam molecules',
+  'text': 'For every molecule (any number of fragments, overlaps, mismatches, N, quality ties, single mates, dove-tailed mates, missing MD, dove_safe on/off) the consensus at a position is b iff b in ACGT '
+          'is called by strictly more fragments than every other base; ties and only-N positions are absent; the vote table equals the declarative per-fragment votes (one call per fragment and position, '
+          'the higher-quality mate, N on an equal-quality disagreement); the result is invariant under permutation of insertion order and duplication of every fragment. ~23k (quick) / ~380k (thorough) calls.',
+  'note': 'Modelled not verified: pysam accessors (aligned pairs, MD presence) supply the model input; numpy argmax/mask; dict/set semantics. Default kwargs only; assumes bases in ACGTN and two-slot '
+          'read lists (one-slot lists raise IndexError, reproduced by the model). No translator tie (K only).'}
 NOT_APPLICABLE = {}
